@@ -4,11 +4,14 @@ import (
 	"bytes"
 	"context"
 	"fmt"
+	"io"
 	"os"
 	"path/filepath"
 
 	"github.com/itchio/lake"
+	"github.com/itchio/lake/pools"
 	"github.com/itchio/lake/pools/fspool"
+	"github.com/itchio/lake/tlc"
 	"github.com/itchio/wharf/pwr"
 	"github.com/itchio/wharf/wsync"
 	"verif/lib"
@@ -90,6 +93,11 @@ func c04Cases(tier string, seed uint64, flavor string) []lib.Case {
 		s := c04Spec{BuildSeed: lib.Mix(seed, 4, uint64(i)), Shape: shape, Comp: comps[i%len(comps)], Yield: i%2 == 0}
 		cases = append(cases, lib.Case{Seed: s.BuildSeed, Kind: shape, Spec: lib.MustSpec(s)})
 	}
+	// builds that are ONE regular file rather than a directory
+	for i := 0; i < n/6; i++ {
+		s := c04Spec{BuildSeed: lib.Mix(seed, 41, uint64(i)), Shape: "single-file", Comp: comps[(i*7)%len(comps)]}
+		cases = append(cases, lib.Case{Seed: s.BuildSeed, Kind: "single-file", Spec: lib.MustSpec(s)})
+	}
 	return cases
 }
 
@@ -111,9 +119,94 @@ func cmpHashes(got []wsync.BlockHash, ref []lib.RefBlockHash, who string) []stri
 	return out
 }
 
+// c04SingleFile: the "build" is one regular file (tlc.WalkAny on a file; pools.New serves it from the path itself). The
+// SAME pool object serves stand-alone signing first and diff-time signing afterwards; both signatures are compared with
+// the reference, and the file (and a copy of it) is validated against the signature with the FILE as the target.
+func c04SingleFile(c lib.Case, s c04Spec, env *lib.Env) lib.Result {
+	res := lib.Result{NonTrivial: true}
+	r := lib.NewRng(lib.Mix(s.BuildSeed, 414))
+	sz := r.PickI64(c04Sizes[:24])
+	data := lib.MakeContent([]string{lib.CRandom, lib.CRandom, lib.CZero, lib.CPeriod}[r.Intn(4)], sz, r.Uint64(), r)
+	path := filepath.Join(env.Scratch, "game.bin")
+	if err := os.WriteFile(path, data, 0o644); err != nil {
+		res.Inconclusive(err.Error())
+		return res
+	}
+	desc := fmt.Sprintf("single-file build of %d bytes, comp=%s seed=%d", sz, s.Comp, s.BuildSeed)
+	cont, err := tlc.WalkAny(path, tlc.WalkOpts{})
+	if err != nil {
+		res.Inconclusive("WalkAny(file): " + err.Error())
+		return res
+	}
+	if len(cont.Files) != 1 || cont.Files[0].Size != sz {
+		res.Violate("container-mismatch", desc, fmt.Sprintf("container of a single file lists %d files", len(cont.Files)))
+		return res
+	}
+	pool, err := pools.New(cont, path)
+	if err != nil {
+		res.Inconclusive("pools.New(file): " + err.Error())
+		return res
+	}
+	defer pool.Close()
+	ref := lib.RefSignature([][]byte{data}, lib.BS)
+	ctx := context.Background()
+	alone, err := pwr.ComputeSignature(ctx, cont, pool, lib.Quiet())
+	if err != nil {
+		res.Violate("computesignature-error", desc, err.Error())
+	} else if pr := cmpHashes(alone, ref, "stand-alone signature of a single-file build"); len(pr) > 0 {
+		res.Violate("standalone-signature-wrong", append([]string{desc}, pr...)...)
+	}
+	var sigInfo *pwr.SignatureInfo
+	for round := 0; round < 2; round++ { // the pool has been read before, once and then twice
+		var sb bytes.Buffer
+		d := &pwr.DiffContext{Compression: s.Comp.Settings(), Consumer: lib.Quiet(), SourceContainer: cont, Pool: pool, TargetContainer: &tlc.Container{}, TargetSignature: nil}
+		if err := d.WritePatch(ctx, io.Discard, &sb); err != nil {
+			res.Violate("diff-error", desc, err.Error())
+			return res
+		}
+		si, err := lib.ReadSig(sb.Bytes())
+		if err != nil {
+			res.Violate("readsignature-error", desc, err.Error())
+			return res
+		}
+		if pr := cmpHashes(si.Hashes, ref, fmt.Sprintf("diff-time signature of a single-file build (pool used %d times before)", round+1)); len(pr) > 0 {
+			res.Violate("difftime-signature-wrong", append([]string{desc}, pr...)...)
+		}
+		sigInfo = si
+	}
+	res.Add("hashes_checked", int64(3*len(ref)))
+	// validation with the file itself (and a byte-identical copy) as the target
+	cp := filepath.Join(env.Scratch, "copy", "game.bin")
+	os.MkdirAll(filepath.Dir(cp), 0o755)
+	os.WriteFile(cp, data, 0o644)
+	for _, target := range []string{path, cp} {
+		if err := pwr.AssertValid(target, sigInfo); err != nil {
+			res.Violate("assertvalid-error-on-pristine", desc, "target is the file itself: "+err.Error())
+		}
+		wp := filepath.Join(env.Scratch, "wounds-single.pww")
+		v := &pwr.ValidatorContext{WoundsPath: wp, Consumer: lib.Quiet()}
+		if err := v.Validate(ctx, target, sigInfo); err != nil {
+			res.Violate("validate-error-on-pristine", desc, "target is the file itself: "+err.Error())
+		}
+		if _, err := os.Stat(wp); err == nil {
+			_, ws, _ := lib.DecodeWounds(mustRead(wp))
+			res.Violate("wounds-on-pristine", desc, fmt.Sprintf("target is the file itself: wounds file with %d wounds: %v", len(ws), ws))
+			os.Remove(wp)
+		}
+		res.Add("validations", 2)
+	}
+	res.Add("single_file_builds", 1)
+	res.SetAdd("compression_settings", s.Comp.String())
+	res.Feat = []string{fmt.Sprintf("single-file|size=%d|%s", sz, s.Comp.Algo)}
+	return res
+}
+
 func c04Run(c lib.Case, env *lib.Env) lib.Result {
 	var s c04Spec
 	lib.ReadSpec(c, &s)
+	if s.Shape == "single-file" {
+		return c04SingleFile(c, s, env)
+	}
 	res := lib.Result{NonTrivial: true}
 	ob, nb, feats := c04Build(s.BuildSeed, s.Shape)
 	oldDir, newDir := filepath.Join(env.Scratch, "old"), filepath.Join(env.Scratch, "new")
@@ -275,7 +368,7 @@ func init() {
 	lib.Register(&lib.Property{
 		ID:          "C04",
 		Level:       "exploration",
-		Rule:        "builds with file sizes swept over {0,1,16K±1,32K±1,n·64K±1 (n=1..5,65)}, content classes {random, zero, periodic}, many-tiny-file builds, symlinks, empty dirs; both producers (diff-time signing through a source pool that slices every read randomly and yields, and stand-alone signing) compared hash-by-hash against a reference signature written from the specification; every compression setting of the signature stream; Validate (wounds-file mode) and AssertValid on the pristine build must report nothing; the same holds for a validator context that has just validated a damaged copy (two random structural/content damages) and is used again on the pristine build. Symlink destinations are spelled in non-normal forms half of the time (./x, x/../y, a//b, trailing /., absolute, upward, spaces). distinct = distinct (size/content class or relation label, algorithm)",
+		Rule:        "builds with file sizes swept over {0,1,16K±1,32K±1,n·64K±1 (n=1..5,65)}, content classes {random, zero, periodic}, many-tiny-file builds, symlinks, empty dirs; both producers (diff-time signing through a source pool that slices every read randomly and yields, and stand-alone signing) compared hash-by-hash against a reference signature written from the specification; every compression setting of the signature stream; Validate (wounds-file mode) and AssertValid on the pristine build must report nothing; the same holds for a validator context that has just validated a damaged copy (two random structural/content damages) and is used again on the pristine build. Builds that are a single regular file (tlc.WalkAny on a file): one pool object serves stand-alone signing and then diff-time signing twice, all three compared with the reference; the file itself and a copy are validated as the target. Symlink destinations are spelled in non-normal forms half of the time (./x, x/../y, a//b, trailing /., absolute, upward, spaces). distinct = distinct (size/content class or relation label, algorithm)",
 		Assumptions: []string{"crypto/md5 and the reference weak-hash formula are correct"},
 		Flavors:     func(tier string) []string { return []string{"plain", "race"} },
 		Cases:       c04Cases,
